@@ -513,6 +513,8 @@ func (s *Serializer) Deserialize(src []byte, dst *ParsedJson) (*ParsedJson, erro
 	// Decompress strings
 	var sWG sync.WaitGroup
 	var stringsErr, msgErr error
+	// Always wait for the string decoders before returning, they write into dst.
+	defer sWG.Wait()
 	err := s.decBlock(br, dst.Strings.B, &sWG, &stringsErr)
 	if err != nil {
 		return dst, err
@@ -533,7 +535,6 @@ func (s *Serializer) Deserialize(src []byte, dst *ParsedJson) (*ParsedJson, erro
 	if err != nil {
 		return dst, err
 	}
-	defer sWG.Wait()
 
 	// Decompress tags
 	if tags, err := binary.ReadUvarint(br); err != nil {
